@@ -345,6 +345,161 @@ example : SigValid (G := ℤ) ⟨1, 100, 2, [("a", 3), ("b", 5)]⟩ ⟨4, 7, 5, 
     (fun k => if k = "a" then 3 else 5) (fun k => if k = "a" then 6 else 6) ["a", "b"] := by
   simp [SigValid]
 
+/-! ## any number of credentials, one challenge -/
+
+/-- what makes one (prover input, verifier request) pair of an honest multi-credential
+presentation well-formed; `V` gives the values shared through the declared common attributes -/
+structure CredOk (common : List (String × ℤ)) (V : String → ℤ) (ci : CredIn G) (vc : VerCred G) :
+    Prop where
+  ho : ci.o = addOps enc
+  hvo : vc.o = addOps enc
+  hpk : vc.pk = ci.pk
+  hun : ci.unrevealed = unrevealedOf vc.schema vc.nonSchema vc.req.revealed
+  hrev : ci.revealed = vc.req.revealed
+  hreq : vc.req.predicates = ci.preds.map (·.1)
+  hreg : vc.hasRegistry = false
+  he : 2 ^ 596 ≤ ci.sig.e ∧ ci.sig.e < 2 ^ 596 + 2 ^ 119
+  ht : 0 ≤ ci.tp.eTilde ∧ ci.tp.eTilde < 2 ^ 456
+  hcommon : ∀ a ∈ keys common, a ∈ ci.unrevealed
+  hex : ∃ (rf : String → G) (val : String → ℤ),
+    Maps ci.pk.r (ci.unrevealed ++ ci.revealed) rf ∧ Maps ci.vals (ci.unrevealed ++ ci.revealed) val ∧
+    SigValid ci.pk ci.sig rf val (ci.unrevealed ++ ci.revealed) ∧
+    (∀ pt ∈ ci.preds, PredOk ci.unrevealed val pt) ∧ (∀ a ∈ keys common, val a = V a)
+
+/-- one sub-proof: first messages (independent of the challenge), and for every challenge in
+range the responses and what the verifier computes from them -/
+theorem cred_complete (m : OvfMode) (common : List (String × ℤ)) (V : String → ℤ)
+    (ci : CredIn G) (vc : VerCred G) (h : CredOk enc common V ci vc) :
+    ∃ init nis,
+      initEqProof ci.o common ci.pk ci.sig ci.unrevealed ci.m2Tilde ci.tp = .ok init ∧
+      initPreds ci.o m Drv.fourSq ci.pk init.mTilde ci.vals ci.preds = .ok nis ∧
+      ∀ c : ℤ, 0 ≤ c ∧ c < 2 ^ 256 → ∃ prf nes,
+        finalizeEqProof init c ci.unrevealed ci.revealed ci.vals = .ok prf ∧
+        finalizePreds c prf nis = .ok nes ∧
+        verifyPrimaryProof vc.o m vc.pk prf nes c
+          (unrevealedOf vc.schema vc.nonSchema vc.req.revealed) = .ok (proverTaus init nis) ∧
+        pairConsistent { eq := prf, ne := nes, hasNonRevoc := false, nrTaus := .ok [] } vc = true ∧
+        (∀ a ∈ keys common, lookup a prf.m = some (c * V a + mtOf ci.tp.mTilde common a)) := by
+  obtain ⟨ho, hvo, hpk, hun, hrev, hreq, hreg, he, ht, hcommon, rf, val, hr, hv, hsig, hpreds, hV⟩ := h
+  have hunm : ∀ k ∈ ci.unrevealed, k ∈ ci.unrevealed ++ ci.revealed := fun k hk => by simp [hk]
+  have heqc : ∀ c : ℤ, 0 ≤ c ∧ c < 2 ^ 256 →
+      ∃ init prf, initEqProof (addOps enc) common ci.pk ci.sig ci.unrevealed ci.m2Tilde ci.tp = .ok init ∧
+        finalizeEqProof init c ci.unrevealed ci.revealed ci.vals = .ok prf ∧
+        verifyEquality (addOps enc) ci.pk prf c ci.unrevealed = .ok init.t ∧
+        prf.revealed = ci.revealed.map (fun k => (k, val k)) ∧
+        init.mTilde = getMtilde ci.tp.mTilde ci.unrevealed common ∧
+        prf.m = ci.unrevealed.map (fun k => (k, c * val k + mtOf ci.tp.mTilde common k)) := by
+    intro c hc
+    have hrange := honest_e_in_range c ci.sig.e ci.tp.eTilde hc he ht
+    exact eq_complete' enc ci.pk ci.sig ci.unrevealed ci.revealed rf val ci.vals common ci.m2Tilde c
+      ci.tp hr hv hsig
+      (by simpa [Gen.largeEStartValueExp, Gen.LARGE_ETILDE, Gen.LARGE_E_START] using hrange)
+  have hvun : Maps ci.vals ci.unrevealed val := hv.mono hunm
+  obtain ⟨init, prf0, hi, hf0, _, _, hmt0, hm0⟩ := heqc 0 ⟨le_refl _, by positivity⟩
+  have hmtM : Maps init.mTilde ci.unrevealed (mtOf ci.tp.mTilde common) := by
+    rw [hmt0]; exact getMtilde_maps ci.tp.mTilde ci.unrevealed common
+  obtain ⟨nis, _, hnis, _, _, _⟩ := preds_complete enc m ci.pk init.mTilde ci.vals prf0 0 (le_refl _)
+    ci.unrevealed val (mtOf ci.tp.mTilde common) hvun hmtM
+    (by rw [hm0]; exact maps_map_self _ ci.unrevealed) ci.preds hpreds
+  refine ⟨init, nis, by rw [ho]; exact hi, by rw [ho]; exact hnis, ?_⟩
+  intro c hc
+  obtain ⟨init', prf, hi', hf, hve, hrevv, _, hm⟩ := heqc c hc
+  have hii : init' = init := by rw [hi] at hi'; cases hi'; rfl
+  subst hii
+  obtain ⟨nis', nes, hnis', hfp, hvn, hpr⟩ := preds_complete enc m ci.pk init'.mTilde ci.vals prf c hc.1
+    ci.unrevealed val (mtOf ci.tp.mTilde common) hvun hmtM
+    (by rw [hm]; exact maps_map_self _ ci.unrevealed) ci.preds hpreds
+  have hnn : nis' = nis := by rw [hnis] at hnis'; cases hnis'; rfl
+  subst hnn
+  refine ⟨prf, nes, hf, hfp, ?_, ?_, ?_⟩
+  · rw [hvo, hpk, ← hun]
+    simp only [verifyPrimaryProof, hve, Outcome.bind_ok, hvn, Outcome.map_ok, proverTaus]
+  · simp only [pairConsistent, hrevv, keys_map_self, hrev, sameSet_self, hpr, hreq, predSameSet_self,
+      Bool.and_self]
+  · intro a ha
+    rw [hm, lookup_map_self _ ci.unrevealed a (hcommon a ha), hV a ha]
+
+
+/-- all sub-proofs: first messages, and for every challenge in range and every state of the
+common-attribute table consistent with the shared values, the responses and the verifier's loop -/
+theorem loop_complete (m : OvfMode) (common : List (String × ℤ)) (V : String → ℤ) :
+    ∀ (cvs : List (CredIn G × VerCred G)), (∀ cv ∈ cvs, CredOk enc common V cv.1 cv.2) →
+    ∃ inits, initAll m Drv.fourSq common (cvs.map (·.1)) = .ok inits ∧
+      ∀ c : ℤ, 0 ≤ c ∧ c < 2 ^ 256 → ∀ seen : List (String × ℤ),
+        (∀ a v, lookup a seen = some v → v = c * V a + seedOf common a) →
+        ∃ sps, finalizeAll c (cvs.map (·.1)) inits = .ok sps ∧ sps.length = cvs.length ∧
+          allPairsConsistent sps (cvs.map (·.2)) = true ∧
+          verifyLoop m (keys common) c sps (cvs.map (·.2)) seen
+            = .ok ((tauBytes (cvs.map (·.1)) inits).map Item.bytes) := by
+  intro cvs
+  induction cvs with
+  | nil =>
+    intro _
+    refine ⟨[], rfl, ?_⟩
+    intro c _ seen _
+    exact ⟨[], rfl, rfl, rfl, rfl⟩
+  | cons cv cvs ih =>
+    intro hok
+    obtain ⟨ci, vc⟩ := cv
+    have hci : CredOk enc common V ci vc := hok (ci, vc) (by simp)
+    obtain ⟨init, nis, hi, hn, hresp⟩ := cred_complete enc m common V ci vc hci
+    obtain ⟨inits, hinits, hrest⟩ := ih fun x hx => hok x (by simp [hx])
+    refine ⟨(init, nis) :: inits, ?_, ?_⟩
+    · simp only [List.map_cons, initAll, hi, Outcome.bind_ok, hn, hinits, Outcome.map_ok]
+    · intro c hc seen hseen
+      obtain ⟨prf, nes, hf, hfp, hvp, hcons, hm⟩ := hresp c hc
+      obtain ⟨seen', hcp, hseen'⟩ := commonPass_inv (keys common) prf
+        (fun a => c * V a + seedOf common a) (keys common) seen
+        (fun a ha => by rw [hm a ha, mtOf_common _ _ _ ha]) hseen
+      obtain ⟨sps, hfa, hlen, hapc, hvl⟩ := hrest c hc seen' hseen'
+      refine ⟨{ eq := prf, ne := nes, hasNonRevoc := false, nrTaus := .ok [] } :: sps, ?_, ?_, ?_, ?_⟩
+      · simp only [List.map_cons, finalizeAll, hf, Outcome.bind_ok, hfp, hfa, Outcome.map_ok]
+      · simp [hlen]
+      · simp only [List.map_cons, allPairsConsistent, hcons, hapc, Bool.and_self]
+      · have hall : (keys common).all (fun a =>
+            (unrevealedOf vc.schema vc.nonSchema vc.req.revealed).contains a) = true := by
+          simp only [List.all_eq_true, List.contains_iff_mem]
+          intro a ha
+          rw [← hci.hun]; exact hci.hcommon a ha
+        rw [hci.hvo] at hvp
+        simp only [List.map_cons, verifyLoop, Bool.false_and, Bool.not_false, hci.hreg, Bool.and_false,
+          Bool.false_eq_true, if_false, Outcome.bind_ok, hall, Bool.not_true, hcp, hvp, hvl,
+          Outcome.map_ok, tauBytes, List.map_append, List.map_map, List.nil_append, hci.hvo, hci.ho,
+          Function.comp_def]
+
+/-- **a presentation over any number of credentials is complete**: for every list of
+credentials (each with its own key, request, predicates and blinders; all satisfying the CL
+equation with `e` in its interval), any declared common attributes hidden in every sub-proof
+and holding ONE value across the credentials, every nonce and every hash function with
+256-bit output, the model prover `proveMulti` (one challenge over all sub-proofs) is accepted
+by the model verifier — including the common-attribute pass over the whole list. -/
+theorem multi_presentation_complete (H : List ByteArray → ℤ) (hH : ∀ bs, 0 ≤ H bs ∧ H bs < 2 ^ 256)
+    (m : OvfMode) (common : List (String × ℤ)) (V : String → ℤ)
+    (cvs : List (CredIn G × VerCred G)) (hok : ∀ cv ∈ cvs, CredOk enc common V cv.1 cv.2)
+    (nonce : ByteArray) :
+    ∃ prf, proveMulti H m Drv.fourSq common (cvs.map (·.1)) nonce = .ok prf ∧
+      verify H m (keys common) (cvs.map (·.2)) prf nonce = .ok true := by
+  obtain ⟨inits, hinits, hrest⟩ := loop_complete enc m common V cvs hok
+  set c : ℤ := H (tauBytes (cvs.map (·.1)) inits ++ cBytes (cvs.map (·.1)) inits ++ [nonce]) with hcdef
+  have hc := hH (tauBytes (cvs.map (·.1)) inits ++ cBytes (cvs.map (·.1)) inits ++ [nonce])
+  rw [← hcdef] at hc
+  obtain ⟨sps, hfa, hlen, hapc, hvl⟩ := hrest c hc [] (fun a v h => by simp [lookup] at h)
+  refine ⟨{ proofs := sps, cHash := c, cList := cBytes (cvs.map (·.1)) inits }, ?_, ?_⟩
+  · simp only [proveMulti, hinits, Outcome.bind_ok, ← hcdef, hfa, Outcome.map_ok]
+  · have hl : (sps.length != (cvs.map (·.2)).length) = false := by simp [hlen]
+    simp only [verify, verifyTranscript, hl, Bool.false_eq_true, if_false, hapc, Bool.not_true, hvl,
+      Outcome.map_ok, Outcome.bind_ok]
+    have hitems : List.map Item.bytes (tauBytes (cvs.map (·.1)) inits) ++
+        List.map Item.bytes (cBytes (cvs.map (·.1)) inits) ++ [Item.bytes nonce]
+        = List.map Item.bytes (tauBytes (cvs.map (·.1)) inits ++ cBytes (cvs.map (·.1)) inits ++ [nonce]) := by
+      simp
+    rw [hitems]
+    have := allBytes_bytes (tauBytes (cvs.map (·.1)) inits ++ cBytes (cvs.map (·.1)) inits ++ [nonce]) []
+    simp only [List.append_nil] at this
+    rw [this]
+    simp only [allBytes, Option.map_some, List.append_nil, ← hcdef, beq_self_eq_true]
+
+
 /-! non-vacuity of `presentation_complete`: a toy group (ℤ, +), a key with two attributes, a
 credential satisfying the CL equation with `e = 2^596`, a request revealing `b` and asking
 `a ≥ 5` of the hidden value 7, a constant hash -/
